@@ -113,6 +113,10 @@ func (g *replayGen) render(label string, t types.Type, depth int) (string, bool)
 		}
 		ln, ok1 := g.uintVal(label + ".len")
 		cp, ok2 := g.uintVal(label + ".cap")
+		if _, hasNil := g.vals[label+".nil"]; !ok1 && !ok2 && !hasNil {
+			// the verification condition does not mention this slice: any value completes the model
+			return fmt.Sprintf("%s(nil)", g.typeStr(t)), true
+		}
 		if !ok1 || !ok2 {
 			return "", false
 		}
@@ -182,6 +186,15 @@ func (g *replayGen) render(label string, t types.Type, depth int) (string, bool)
 	case *types.Pointer:
 		if ref, ok := g.uintVal(label + ".ref"); ok && ref == 0 {
 			return fmt.Sprintf("(%s)(nil)", g.typeStr(t)), true
+		}
+		if named, ok := u.Elem().(*types.Named); ok && named.Obj().Pkg() != nil && named.Obj().Pkg().Path() == "bytes" && named.Obj().Name() == "Reader" {
+			// *bytes.Reader: rebuilt from its byte slice and read offset
+			sl, ok1 := g.render("*"+label+".s", types.NewSlice(types.Typ[types.Byte]), depth+1)
+			off, ok2 := g.uintVal("*" + label + ".i")
+			if ok1 && ok2 && off < 1<<20 {
+				g.imports["bytes"] = "bytes"
+				return fmt.Sprintf("func() *bytes.Reader { r := bytes.NewReader(%s); r.Seek(%d, 0); return r }()", sl, off), true
+			}
 		}
 		if _, isStruct := u.Elem().Underlying().(*types.Struct); isStruct {
 			if named, ok := u.Elem().(*types.Named); ok && named.Obj().Pkg() != nil && !strings.HasPrefix(named.Obj().Pkg().Path(), modPath) {
